@@ -314,6 +314,7 @@ func init() {
 			ex.stub("clock: exact virtual clock (advances by each sleep's duration and by 1 ms per reading)")
 			return nil
 		},
+		z + "ClockIsExact": func(ex *Exec, fn *ssa.Function, args []Value, site token.Pos) Value { return ex.tc.Bool(ex.clockExact) },
 		z + "ClockNow": func(ex *Exec, fn *ssa.Function, args []Value, site token.Pos) Value {
 			if ex.clockExact {
 				ex.clock = ex.tc.Bin(OAdd, ex.clock, ex.tc.Const(64, 1)) // reading the clock takes time
@@ -584,6 +585,13 @@ func init() {
 		"time.Sleep": func(ex *Exec, fn *ssa.Function, a []Value, site token.Pos) Value {
 			ex.stub("time.Sleep (virtual clock advances by >= d)")
 			ex.sleep(a[0].(*Term))
+			if c := ex.cur; c != nil {
+				// a sleeping coroutine lets the main thread run (it is resumed when the main
+				// thread blocks again)
+				c.state = coRunnable
+				ex.coBlock(c)
+				return nil
+			}
 			if ex.waitBudget > 0 && ex.onWait != nil {
 				ex.waitBudget--
 				ex.callValue(ex.onWait, nil, site)
